@@ -327,6 +327,11 @@ static J gensalt_op(Rng &g, bool allow_static, bool allow_auto, bool cheap_only)
     switch (mi) { case 0: case 1: count = 1 + g.below(3); break; case 2: count = 6 + g.below(2); break; case 3: case 4: case 5: case 6: count = 4 + g.below(3); break;
       case 7: case 8: count = 1000 + g.below(5000); break; case 9: count = 4 + g.below(500); break; case 10: count = g.below(70000); break; case 13: count = 1 + g.below(1000); break; default: count = g.below(3); }
     if (g.chance(1, 10)) count = 1ul << g.below(40);   // mostly out of range
+    // calls whose result is never hashed can use the whole documented count range
+    if (strcmp(k, "gensalt") && g.chance(1, 3))
+      switch (mi) { case 0: case 1: count = 1 + g.below(11); break; case 2: count = 6 + g.below(6); break; case 3: case 4: case 5: case 6: count = 4 + g.below(28); break;
+        case 7: case 8: count = g.chance(1, 2) ? 1000 + g.below(999998999ul) : 999999999ul - g.below(3); break; case 9: count = g.chance(1, 2) ? g.below(4294967295ul) : 4294967295ul - g.below(3); break;
+        case 10: count = g.below(4294967295ul); break; case 13: count = 1 + g.below(16777215ul); break; default: break; }
   }
   if (!strcmp(k, "gensalt")) {
     // the static result may be handed straight to crypt() later in the history: keep it cheap to hash
@@ -342,7 +347,7 @@ static J gensalt_op(Rng &g, bool allow_static, bool allow_auto, bool cheap_only)
   else {
     // never fewer than 4 bytes for the $1$/$5$/$6$ writers and never an output_size in 3..191:
     // those regions hit defects F2/F3 that belong to properties this check does not decide (DESIGN 3.5, 6)
-    size_t n = g.chance(1, 6) ? (size_t)g.range(4, 12) : (size_t)g.range(16, 40);
+    size_t n = g.chance(1, 6) ? (size_t)g.range(4, 12) : g.chance(1, 5) ? (size_t)g.range(41, 255) : g.chance(1, 8) ? 64 : (size_t)g.range(16, 40);
     op["rb"] = Bytes(rnd_bytes(g, n)).to_json();
   }
   (void)cheap_only;
